@@ -278,6 +278,14 @@ class Obj(object):
         self.name = name
 
 
+class Ref(object):
+    """a reference parameter bound to an lvalue of the caller"""
+    __slots__ = ("lv", "fr")
+
+    def __init__(self, lv, fr):
+        self.lv, self.fr = lv, fr
+
+
 class Sink(object):
     pass
 
@@ -298,6 +306,7 @@ class Machine(object):
         self.max_depth = max_depth
         self.nobj = 0
         self.lits = {}
+        self.garrays = {}       # arrays handed in by the rule (e.g. the bytes a pointer parameter designates)
 
     # ---- frames ----------------------------------------------------------
     class Frame(object):
@@ -332,6 +341,9 @@ class Machine(object):
         if k in ("ParenExpr",):
             return self.lvalue(fr, st["c"][0])
         if k == "DeclRefExpr":
+            v_ = fr.env.get(st["ref"]["d"])
+            if isinstance(v_, Ref):
+                return ("ref", v_)
             return ("var", st["ref"]["d"])
         if k == "MemberExpr":
             b = fn.s(fn.strip(st["c"][0], casts=True)) if st["c"] else {"k": "CXXThisExpr"}
@@ -360,6 +372,8 @@ class Machine(object):
         raise Unsupported("lvalue " + k)
 
     def load(self, fr, lv, where=""):
+        if lv[0] == "ref":
+            return self.load(lv[1].fr, lv[1].lv, where)
         if lv[0] == "var":
             if lv[1] not in fr.env:
                 raise Unsupported("read of an unknown variable at %s" % where)
@@ -373,6 +387,8 @@ class Machine(object):
         if arr is None:
             arr = self.lits.get(lv[1])
         if arr is None:
+            arr = self.garrays.get(lv[1])
+        if arr is None:
             raise Unsupported("unknown array")
         if not (0 <= lv[2] < len(arr)):
             raise Hazard("access outside %s[%d] (index %d) at %s" % (str(lv[1])[:12], len(arr), lv[2], where))
@@ -381,12 +397,16 @@ class Machine(object):
         return arr[lv[2]]
 
     def store(self, fr, lv, v, where=""):
+        if lv[0] == "ref":
+            return self.store(lv[1].fr, lv[1].lv, v, where)
         if lv[0] == "var":
             fr.env[lv[1]] = v
         elif lv[0] == "field":
             self.fields[("fld", lv[1], lv[2])] = v
         else:
             arr = fr.arrays.get(lv[1])
+            if arr is None:
+                arr = self.garrays.get(lv[1])
             if arr is None:
                 raise Unsupported("unknown array")
             if not (0 <= lv[2] < len(arr)):
@@ -452,7 +472,10 @@ class Machine(object):
             if r["k"] == "enumerator" and "cv" in st:
                 return Aff.const(int(st["cv"]))
             if r["d"] in fr.env:
-                return fr.env[r["d"]]
+                v_ = fr.env[r["d"]]
+                if isinstance(v_, Ref):
+                    return self.load(v_.fr, v_.lv, fn.loc(i))
+                return v_
             if r["d"] in fr.arrays:
                 return Ptr(r["d"], 0)
             c = fn.const(i)
@@ -640,6 +663,14 @@ class Machine(object):
                     v = SINK
                 fr2.env[prm["d"]] = v
                 continue
+            if "&" in prm["t"] and not prm["t"].lstrip().startswith("const ") and type_range(prm.get("tk")):
+                # a mutable reference to an integer: alias the caller's lvalue
+                try:
+                    lv_ = self.lvalue(fr, a)
+                    fr2.env[prm["d"]] = lv_[1] if lv_[0] == "ref" else Ref(lv_, fr)
+                    continue
+                except Unsupported:
+                    pass
             v = self.ev(fr, a)
             if isinstance(v, Aff) and type_range(prm.get("tk")):
                 v = self.dom.wrap(v, prm["tk"])
